@@ -151,7 +151,39 @@ class Body:
                 else:
                     s = []
                 self._succ.append(s)
+            self._thread_jumps()
         return self._succ[b]
+
+    def _thread_jumps(self):
+        """P: `L = const c; goto S`, S: `switch L` (S does not assign L): P's real successor is S's target for c.
+        mir-opt-level=0 lowers matches!, && and || into exactly this diamond; without threading the false
+        side of a test 'reaches' the code guarded by its true side."""
+        for pi, blk in enumerate(self.blocks):
+            if blk["term"]["k"] != "goto" or len(self._succ[pi]) != 1:
+                continue
+            si = self._succ[pi][0]
+            sb = self.blocks[si]
+            st = sb["term"]
+            if st["k"] != "switch" or st["discr"]["k"] not in ("copy", "move") or st["discr"]["pl"].get("p"):
+                continue
+            L = st["discr"]["pl"]["l"]
+            if any(x["lhs"]["l"] == L for x in sb["stmts"]):
+                continue
+            c = None
+            for x in blk["stmts"]:
+                if x["lhs"]["l"] == L:
+                    rv = x["rv"]
+                    if not x["lhs"].get("p") and rv["k"] == "use" and rv["o"]["k"] == "const" and "int" in rv["o"]:
+                        c = rv["o"]["int"]
+                    else:
+                        c = None
+            if c is None:
+                continue
+            tgt = st["otherwise"]
+            for v, tg in zip(st["values"], st["targets"]):
+                if v == c:
+                    tgt = tg
+            self._succ[pi] = [tgt]
 
     def _const_switch_target(self, blk, t):
         """switch on discriminant(_x) where _x's only definition is an aggregate of a known variant and
